@@ -44,7 +44,9 @@ def create_divs_from_beats(note_array: np.ndarray):
     divs = np.lcm.reduce(
         [
             Fraction(float(ix)).limit_denominator(256).denominator
-            for ix in np.unique(note_array["duration_beat"])
+            for ix in np.unique(
+                np.r_[note_array["duration_beat"], note_array["onset_beat"]]
+            )
         ]
     )
     onset_divs = list(
